@@ -1,11 +1,17 @@
 package c19
 
-// reads.go — which flag-bound package variables does the body of each command read without the
-// command (or an ancestor, through a persistent flag) registering a flag on them?  Such a command
-// gets whatever default some *other* command's registration left there: "registering the options
-// of one command changes the behaviour of another command" in its purest form, and invisible in
-// the flag table (the reading command has no row for the variable).  Syntactic, first order: the
-// Run/RunE/PreRun… function literals of the command literal; helpers are not followed.
+// reads.go — which flag-bound package variables does each command read without the command (or an
+// ancestor, through a persistent flag) registering a flag on them?  Such a command gets whatever
+// default some *other* command's registration left there: "registering the options of one command
+// changes the behaviour of another command" in its purest form, and invisible in the flag table
+// (the reading command has no row for the variable).
+//
+// Syntactic (go/parser): the function literals of the command literal (Run, RunE, PreRun…,
+// PersistentPreRun…, PostRun…) and, transitively, the bodies of the package-level functions of
+// package cmd they call (openWriteFile, readTrees, readTree, tbe, …; depth ≤ 6, each function once
+// per command).  An identifier counts as a read of the package variable unless the function
+// declares a parameter or a local of that name.  Function values passed around and methods are
+// not followed.
 
 import (
 	"go/ast"
@@ -20,7 +26,59 @@ import (
 type unboundRead struct {
 	Path, CmdVar, GoVar, File string
 	Line                      int
+	Via                       string   // "" = in the command's own function literal, else the chain of helpers
 	BoundBy                   []string // "path --flag" of the registrations of that variable
+}
+
+// localNames: parameters, results, := and var declarations inside a function
+func localNames(ft *ast.FuncType, body *ast.BlockStmt) map[string]bool {
+	local := map[string]bool{}
+	addFields := func(fl *ast.FieldList) {
+		if fl == nil {
+			return
+		}
+		for _, f := range fl.List {
+			for _, n := range f.Names {
+				local[n.Name] = true
+			}
+		}
+	}
+	if ft != nil {
+		addFields(ft.Params)
+		addFields(ft.Results)
+	}
+	if body == nil {
+		return local
+	}
+	ast.Inspect(body, func(n ast.Node) bool {
+		switch x := n.(type) {
+		case *ast.AssignStmt:
+			if x.Tok == token.DEFINE {
+				for _, l := range x.Lhs {
+					if li, ok := l.(*ast.Ident); ok {
+						local[li.Name] = true
+					}
+				}
+			}
+		case *ast.ValueSpec:
+			for _, li := range x.Names {
+				local[li.Name] = true
+			}
+		case *ast.RangeStmt:
+			if x.Tok == token.DEFINE {
+				for _, e := range []ast.Expr{x.Key, x.Value} {
+					if li, ok := e.(*ast.Ident); ok {
+						local[li.Name] = true
+					}
+				}
+			}
+		case *ast.FuncLit:
+			addFields(x.Type.Params)
+			addFields(x.Type.Results)
+		}
+		return true
+	})
+	return local
 }
 
 func unboundReads(repo string) (out []unboundRead, problems []string) {
@@ -34,6 +92,7 @@ func unboundReads(repo string) (out []unboundRead, problems []string) {
 	dir := filepath.Join(repo, "cmd")
 	ents, _ := os.ReadDir(dir)
 	fset := token.NewFileSet()
+	var files []*ast.File
 	for _, e := range ents {
 		n := e.Name()
 		if !strings.HasSuffix(n, ".go") || strings.HasSuffix(n, "_test.go") || !compiled(dir, n) {
@@ -44,6 +103,17 @@ func unboundReads(repo string) (out []unboundRead, problems []string) {
 			problems = append(problems, err.Error())
 			continue
 		}
+		files = append(files, f)
+	}
+	funcs := map[string]*ast.FuncDecl{}
+	for _, f := range files {
+		for _, d := range f.Decls {
+			if fd, ok := d.(*ast.FuncDecl); ok && fd.Recv == nil && fd.Name.Name != "init" {
+				funcs[fd.Name.Name] = fd
+			}
+		}
+	}
+	for _, f := range files {
 		for _, d := range f.Decls {
 			gd, ok := d.(*ast.GenDecl)
 			if !ok {
@@ -82,55 +152,52 @@ func unboundReads(repo string) (out []unboundRead, problems []string) {
 						}
 					}
 					seen := map[string]bool{}
+					visited := map[string]bool{}
+					var scan func(ft *ast.FuncType, body *ast.BlockStmt, via string, depth int)
+					scan = func(ft *ast.FuncType, body *ast.BlockStmt, via string, depth int) {
+						if body == nil || depth > 6 {
+							return
+						}
+						local := localNames(ft, body)
+						var visit func(n ast.Node) bool
+						visit = func(n ast.Node) bool {
+							switch x := n.(type) {
+							case *ast.SelectorExpr:
+								// x.f: f is never a package variable of cmd; look at x only
+								ast.Inspect(x.X, visit)
+								return false
+							case *ast.KeyValueExpr:
+								// struct literal keys are field names
+								if _, ok := x.Key.(*ast.Ident); ok {
+									ast.Inspect(x.Value, visit)
+									return false
+								}
+							case *ast.CallExpr:
+								if fn, ok := x.Fun.(*ast.Ident); ok && !local[fn.Name] {
+									if fd, ok := funcs[fn.Name]; ok && !visited[fn.Name] {
+										visited[fn.Name] = true
+										v := fn.Name
+										if via != "" {
+											v = via + ">" + fn.Name
+										}
+										scan(fd.Type, fd.Body, v, depth+1)
+									}
+								}
+							case *ast.Ident:
+								noteRead(x, local, seen, bound, mine, paths, fset, path, id.Name, via, &out)
+							}
+							return true
+						}
+						ast.Inspect(body, visit)
+					}
 					for _, el := range cl.Elts {
 						kv, ok := el.(*ast.KeyValueExpr)
 						if !ok {
 							continue
 						}
-						fl, ok := kv.Value.(*ast.FuncLit)
-						if !ok {
-							continue
+						if fl, ok := kv.Value.(*ast.FuncLit); ok {
+							scan(fl.Type, fl.Body, "", 0)
 						}
-						// local declarations shadowing a package variable are rare in this code base; a
-						// name declared inside the literal is skipped
-						local := map[string]bool{}
-						ast.Inspect(fl, func(n ast.Node) bool {
-							switch x := n.(type) {
-							case *ast.AssignStmt:
-								if x.Tok == token.DEFINE {
-									for _, l := range x.Lhs {
-										if li, ok := l.(*ast.Ident); ok {
-											local[li.Name] = true
-										}
-									}
-								}
-							case *ast.ValueSpec:
-								for _, li := range x.Names {
-									local[li.Name] = true
-								}
-							}
-							return true
-						})
-						ast.Inspect(fl, func(n ast.Node) bool {
-							if se, ok := n.(*ast.SelectorExpr); ok {
-								// x.f: only x can be a package variable
-								ast.Inspect(se.X, func(m ast.Node) bool { return true })
-							}
-							idn, ok := n.(*ast.Ident)
-							if !ok || local[idn.Name] || seen[idn.Name] {
-								return true
-							}
-							if regs, ok := bound[idn.Name]; ok && !mine[idn.Name] && idn.Obj == nil {
-								seen[idn.Name] = true
-								var by []string
-								for _, s := range regs {
-									by = append(by, paths[s.CmdVar]+" --"+s.Flag)
-								}
-								out = append(out, unboundRead{Path: path, CmdVar: id.Name, GoVar: idn.Name, File: n2base(fset.Position(idn.Pos()).Filename),
-									Line: fset.Position(idn.Pos()).Line, BoundBy: by})
-							}
-							return true
-						})
 					}
 				}
 			}
@@ -145,4 +212,21 @@ func unboundReads(repo string) (out []unboundRead, problems []string) {
 	return
 }
 
-func n2base(p string) string { return filepath.Base(p) }
+func noteRead(idn *ast.Ident, local, seen map[string]bool, bound map[string][]regSite, mine map[string]bool,
+	paths map[string]string, fset *token.FileSet, path, cmdVar, via string, out *[]unboundRead) {
+	if local[idn.Name] || seen[idn.Name] || mine[idn.Name] {
+		return
+	}
+	regs, ok := bound[idn.Name]
+	if !ok {
+		return
+	}
+	seen[idn.Name] = true
+	var by []string
+	for _, s := range regs {
+		by = append(by, paths[s.CmdVar]+" --"+s.Flag)
+	}
+	pos := fset.Position(idn.Pos())
+	*out = append(*out, unboundRead{Path: path, CmdVar: cmdVar, GoVar: idn.Name, File: filepath.Base(pos.Filename),
+		Line: pos.Line, Via: via, BoundBy: by})
+}
